@@ -246,6 +246,29 @@ fn analysis_items() -> Vec<Item> {
             v.push(Item { name: format!("analysis-access-at-top-{}-{}", k, info0), cpu: "amd64".into(), dump: build(&spec), symbols: HashMap::new(), corrupted: false });
         }
     }
+    // (1e) /proc/cpuinfo with a microcode line of every shape: a version, no 0x prefix, nothing, non-ASCII, too short, too long
+    for (k, mc) in ["microcode\t: 0x2f\n", "microcode\t: 7\n", "microcode\t:\n", "microcode\t: 0\u{e9}1\n", "microcode\t: 0x\n", "microcode\t: 0xfffffffffffffffff\n", "microcode\t: x\n", ""].into_iter().enumerate() {
+        let mut spec = DumpSpec { os: "linux".into(), cpu: "amd64".into(), ..DumpSpec::default() };
+        spec.threads.push(ThreadSpec { id: 1, ctx_ok: true, name: None, ip: 0x400150, sp: 0x10008, stack_base: 0x10000, stack: vec![0u8; 64] });
+        spec.modules = vec![ModuleSpec { base: 0x400000, size: 0x1000, name: "m1".into() }];
+        spec.cpuinfo = Some(format!("processor\t: 0\nvendor_id\t: GenuineIntel\nmodel name\t: cpu\n{}flags\t\t: fpu\n\nprocessor\t: 1\n", mc));
+        v.push(Item { name: format!("analysis-cpuinfo-microcode-{}", k), cpu: "amd64".into(), dump: build(&spec), symbols: HashMap::new(), corrupted: false });
+    }
+    // (1f) a null pointer in disguise: the base register of the crashing instruction's memory operand is zero (adjusted address = offset)
+    for (k, (op, off)) in [(&[0x8au8, 0x43, 0x10][..], 0x10u64), (&[0x48, 0x8b, 0x83, 0x00, 0x01, 0x00, 0x00][..], 0x100), (&[0x48, 0x89, 0x43, 0x08][..], 8)].into_iter().enumerate() {
+        let mut spec = DumpSpec { os: "windows".into(), cpu: "amd64".into(), ..DumpSpec::default() };
+        spec.threads.push(ThreadSpec { id: 1, ctx_ok: true, name: None, ip: 0x400150, sp: 0x10008, stack_base: 0x10000, stack: vec![0u8; 64] });
+        spec.modules = vec![ModuleSpec { base: 0x400000, size: 0x1000, name: "m1".into() }];
+        spec.memory_info = vec![RegionSpec { base: 0x10000, size: 0x8000, protection: 4, state: 0x1000 }, RegionSpec { base: 0x400000, size: 0x1000, protection: 0x20, state: 0x1000 }];
+        let mut bytes = op.to_vec();
+        bytes.resize(16, 0x90);
+        spec.extra_memory.push((0x400150, bytes)); // mov al,[rbx+0x10] / mov rax,[rbx+0x100] / mov [rbx+8],rax with rbx = 0
+        let mut info = [0u64; 15];
+        info[0] = if k == 2 { 1 } else { 0 };
+        info[1] = off;
+        spec.exception = Some(ExcSpec { tid: 1, has_ctx: true, ctx_ok: true, ctx_ip: 0x400150, ctx_sp: 0x10008, code: 0xC000_0005, flags: 0, address: 0x400150, nparams: 2, info, ctx_patch: vec![(144usize, 0)] });
+        v.push(Item { name: format!("analysis-null-plus-offset-{}", k), cpu: "amd64".into(), dump: build(&spec), symbols: HashMap::new(), corrupted: false });
+    }
     // (1b) the dump header has no time stamp (zeroed here) but the process start time is known: anything
     //      derived from "the time of the crash" must come from the dump, not from the clock.  The name asks the determinism
     //      recorder to let a second pass before the last run.
